@@ -6,13 +6,19 @@
 (* and the interpreter's ast module against it).  The design-level laws are checked on the way.   *)
 EXTENDS Perm, SequencesExt, Json, IOUtils
 
-CONSTANTS FullDepth, Stride, Stride2    \* Stride = 0: no deeper sample
+CONSTANTS FullDepth, Stride, Stride2,   \* Stride = 0: no deeper sample
+          HistLen                    \* length bound of the scope histories
 
 PermTab == [i \in 1..256 |-> PermOf(i - 1)]
 Row(c) == LET m == Must(c)
               a == Amb(c) IN
           [i \in 1..256 |-> IF ~(m \subseteq PermTab[i]) THEN 1 ELSE IF a \subseteq PermTab[i] THEN 0 ELSE 2]
 Rec(c) == [c |-> c, v |-> Row(c)]
+RowK(ks) == LET m == MustK(ks)
+                a == AmbK(ks) IN
+            [i \in 1..256 |-> IF ~(m \subseteq PermTab[i]) THEN 1 ELSE IF a \subseteq PermTab[i] THEN 0 ELSE 2]
+ErrNames == SetToSeq(DOMAIN ErrProgs)
+HistSeq  == SetToSeq(Histories(HistLen))
 Full   == SetToSeq(AllChains(FullDepth))
 \* deterministic sample of the chains one level deeper: every Stride-th chain of FullDepth nodes
 \* is extended in all ways, and every Stride2-th of these is kept; the offset comes from --seed
@@ -33,9 +39,14 @@ ASSUME AllAllows(FullDepth)
 ASSUME EachFlagMatters
 ASSUME DeepContainment(FullDepth)
 ASSUME \A i \in 0..255 : MaskOf(PermOf(i)) = i
+ASSUME MechanismRestores(HistLen)
+ASSUME \A n \in DOMAIN ErrProgs : ErrProgs[n] \subseteq Kinds
 ASSUME JsonSerialize(IOEnv.OUT_FILE,
          [kinds |-> [i \in 1..Cardinality(Kinds) |-> KindRec(SetToSeq(Kinds)[i])],
           stmt_slots |-> SetToSeq(StmtSlots),
           full |-> [i \in 1..Len(Full) |-> Rec(Full[i])],
-          deeper |-> [i \in 1..Len(Deeper) |-> Rec(Deeper[i])]])
+          deeper |-> [i \in 1..Len(Deeper) |-> Rec(Deeper[i])],
+          errprogs |-> [i \in 1..Len(ErrNames) |->
+                          [name |-> ErrNames[i], kinds |-> SetToSeq(ErrProgs[ErrNames[i]]), v |-> RowK(ErrProgs[ErrNames[i]])]],
+          histories |-> [i \in 1..Len(HistSeq) |-> [h |-> HistSeq[i], eff |-> EffAfter(HistSeq[i])]]])
 =============================================================================
